@@ -5,6 +5,7 @@ import (
 	"encoding/binary"
 	"fmt"
 	"github.com/henrylee2cn/erpc/v6/proto/pbproto/pb"
+	"math/rand"
 	"runtime"
 	"strconv"
 	"strings"
@@ -19,6 +20,7 @@ import (
 func init() { extraProtos["http"] = httproto.NewHTTProtoFunc() }
 
 type hostileWorld struct {
+	srvLog erpc.Peer // a serving peer that prints message details
 	srv     erpc.Peer
 	cli     erpc.Peer
 	control erpc.Session
@@ -359,9 +361,112 @@ func patchCodec(frame []byte, id byte) []byte {
 	return f
 }
 
+type discardLog struct{}
+
+func (discardLog) Output(calldepth int, msgBytes []byte, loggerLevel erpc.LoggerLevel) {}
+func (discardLog) Flush() error                                                          { return nil }
+
+// loggedBodies: what a well-formed message may carry that the run log then has to render.
+func loggedBody(class string, rnd *rand.Rand) []byte {
+	switch class {
+	case "ascii":
+		return []byte("plain ascii body")
+	case "utf8":
+		return []byte("gr\u00fc\u00dfe \u4e16\u754c \U0001F600")
+	case "trunc1":
+		return []byte("ends in the first byte of a rune \xe2")
+	case "trunc2":
+		return []byte("ends in two bytes of a three-byte rune \xe2\x80")
+	case "trunc4":
+		return []byte("ends inside a four-byte rune \xf0\x9f\x98")
+	case "invalid":
+		return []byte("\xff\xfe\x80 invalid \xc0\xaf bytes \xed\xa0\x80")
+	case "linesep":
+		return []byte("line \u2028 and paragraph \u2029 separators, and \xe2\x80 cut")
+	case "control":
+		return []byte("quotes \" backslashes \\ controls \x00\x01\x1f\x7f\r\n\t <>& end\\")
+	case "empty":
+		return []byte{}
+	case "long":
+		b := make([]byte, 20000)
+		rnd.Read(b)
+		return b
+	}
+	b := make([]byte, 1+rnd.Intn(200))
+	rnd.Read(b)
+	return b
+}
+
+// loggedCase: well-formed CALL / PUSH frames with such bodies (and the same bytes as a metadata value) reach a peer that
+// prints message details (PeerConfig.PrintDetail, logger level DEBUG, the output discarded): rendering them for the run
+// log happens on the handling goroutine after its recover, so a crash there takes the process down.
+func (d *dataRun) loggedCase(c DataCase, out map[string]interface{}) {
+	w := getHostileWorld(d.rec)
+	if w.srvLog == nil {
+		w.srvLog = erpc.NewPeer(erpc.PeerConfig{PrintDetail: true})
+		w.srvLog.RouteCall(new(T))
+		w.srvLog.RoutePush(new(U))
+		w.srvLog.SetUnknownCall(func(ctx erpc.UnknownCallCtx) (interface{}, *erpc.Status) { return len(ctx.InputBodyBytes()), nil })
+		w.srvLog.SetUnknownPush(func(ctx erpc.UnknownPushCtx) *erpc.Status { _ = ctx.InputBodyBytes(); return nil })
+		erpc.SetLoggerOutputter(discardLog{})
+	}
+	proto := c.S("proto")
+	limit := c.I("limit")
+	socket.SetMessageSizeLimit(uint32(limit))
+	defer socket.SetMessageSizeLimit(0)
+	before := w.controlOK()
+	body := loggedBody(c.S("lenval"), d.rnd)
+	var inputs [][]byte
+	for _, mt := range []byte{erpc.TypeCall, erpc.TypePush} {
+		for _, route := range []string{"/no/such/route", CallRoute} {
+			m := socket.NewMessage()
+			m.SetMtype(mt)
+			m.SetSeq(7)
+			m.SetServiceMethod(route)
+			m.SetBodyCodec('s')
+			b := append([]byte(nil), body...)
+			m.SetBody(&b)
+			if len(body) < 200 && proto != "http" {
+				m.Meta().Set("k", string(body))
+			}
+			var buf bytes.Buffer
+			if err := protoFunc(proto)(&rwBuf{r: bytes.NewReader(nil), w: &buf}).Pack(m); err != nil {
+				continue
+			}
+			inputs = append(inputs, buf.Bytes())
+		}
+	}
+	erpc.SetLoggerLevel("DEBUG")
+	old := w.srv
+	w.srv = w.srvLog
+	wedged := 0
+	states := map[string]int{}
+	for _, in := range inputs {
+		st, _, _ := w.feed(proto, in, true, "")
+		states[st]++
+		if st == "wedged" || st == "noserve" {
+			wedged++
+		}
+	}
+	w.srv = old
+	time.Sleep(5 * time.Millisecond)
+	erpc.SetLoggerLevel("OFF")
+	after := w.controlOK()
+	out["alive"] = true
+	out["boundok"] = true
+	out["stateok"] = wedged == 0 && len(inputs) > 0
+	out["controlok"] = before && after
+	out["states"] = fmt.Sprint(states)
+	out["tried"] = len(inputs)
+}
+
 func (d *dataRun) hostileCase(c DataCase, out map[string]interface{}) {
 	if c.S("class") == "replybody" {
 		d.replyBodyCase(c, out)
+		return
+	}
+	if c.S("class") == "logged" {
+		d.loggedCase(c, out)
 		return
 	}
 	w := getHostileWorld(d.rec)
